@@ -64,7 +64,13 @@ impl Idv {
 pub struct Issuer;
 #[contractimpl]
 impl Issuer {
-    pub fn is_claim_valid(e: &Env, identity: Address, claim_topic: u32, scheme: u32, sig_data: Bytes, claim_data: Bytes) {
+    /// Declared as returning a raw value so that one contract can also play a MALFORMED issuer: with the flag set it
+    /// answers `false` instead of trapping (the shape the module documentation's first snippet suggests). The interface is
+    /// "returns nothing, traps if invalid", so such an answer is not a confirmation.
+    pub fn is_claim_valid(e: &Env, identity: Address, claim_topic: u32, scheme: u32, sig_data: Bytes, claim_data: Bytes) -> soroban_sdk::Val {
+        if e.storage().instance().get(&soroban_sdk::symbol_short!("ansfalse")).unwrap_or(false) {
+            return false.into();
+        }
         // 101 ed25519, 102 secp256r1, 103 secp256k1 — each through the library's verifier for that scheme
         let key: Bytes = match scheme {
             101 => Ed25519Verifier::extract_signature_data(e, &sig_data).public_key.into(),
@@ -95,7 +101,9 @@ impl Issuer {
                 Secp256k1Verifier::verify(e, &Secp256k1Verifier::build_message(e, &identity, claim_topic, &claim_data), &sd)
             }
         }
+        ().into()
     }
+    pub fn answer_false(e: &Env, on: bool) { e.storage().instance().set(&soroban_sdk::symbol_short!("ansfalse"), &on) }
     pub fn allow_key(e: &Env, pk: Bytes, registry: Address, scheme: u32, topic: u32) { ci::allow_key(e, &pk, &registry, scheme, topic) }
     pub fn remove_key(e: &Env, pk: Bytes, registry: Address, scheme: u32, topic: u32) { ci::remove_key(e, &pk, &registry, scheme, topic) }
     pub fn revoke(e: &Env, identity: Address, topic: u32, data: Bytes, revoked: bool) { ci::set_claim_revoked(e, &identity, topic, &data, revoked) }
@@ -120,6 +128,8 @@ pub enum Step {
     Revoke { i: usize, inv: usize, t: u32, data: u8, on: bool },
     Bump { i: usize, inv: usize, t: u32 },
     AdvanceTime { secs: u64 },
+    /// collaborator fault: from now on (or no longer) issuer i answers `false` instead of trapping / returning nothing
+    IssuerAnswersFalse { i: usize, on: bool },
     Verify { inv: usize },
 }
 #[derive(Clone, Debug, Serialize, Deserialize)]
@@ -144,13 +154,14 @@ struct Model {
     held: BTreeMap<(usize, usize, u32), Held>,          // (investor, issuer, topic)
     revoked: BTreeSet<(usize, usize, u32, u8, u64)>,    // (issuer, investor, topic, data, valid_until) — revocation is per claim data
     nonce: BTreeMap<(usize, usize, u32), u32>,          // (issuer, investor, topic)
-    revoked_at: BTreeMap<(usize, usize, u32, u8, u64), u64>, // when each revocation was switched on (reach probe only)
+    revoked_at: BTreeMap<(usize, usize, u32, u8, u64), u64>,
+    answers_false: BTreeSet<usize>, // when each revocation was switched on (reach probe only)
     now: u64,
 }
 impl Model {
     fn n(&self, i: usize, inv: usize, t: u32) -> u32 { *self.nonce.get(&(i, inv, t)).unwrap_or(&0) }
     fn claim_ok(&self, i: usize, inv: usize, t: u32, h: &Held) -> bool {
-        self.keys.contains(&(i, h.key, t)) && self.now < h.valid_until && !self.revoked.contains(&(i, inv, t, h.data, h.valid_until)) && h.nonce == self.n(i, inv, t)
+        !self.answers_false.contains(&i) && self.keys.contains(&(i, h.key, t)) && self.now < h.valid_until && !self.revoked.contains(&(i, inv, t, h.data, h.valid_until)) && h.nonce == self.n(i, inv, t)
     }
     fn verified(&self, inv: usize) -> bool {
         self.topics.iter().all(|t| self.trusted.iter().any(|(i, ts)| ts.contains(t) && self.held.get(&(inv, *i, *t)).map(|h| self.claim_ok(*i, inv, *t, h)).unwrap_or(false)))
@@ -175,7 +186,7 @@ impl Check for Identity {
     }
     fn property_of(&self, check: &str) -> std::vec::Vec<&'static str> {
         // the identity-claims registry clauses are shared with C20
-        if check.starts_with("claims.") {
+        if check.starts_with("claims.") || check.starts_with("trusted.") {
             vec!["C15", "C20"]
         } else if check.starts_with("verify.") {
             // "both parties pass identity verification" (C04) is decided by this very function: the RWA worlds check that
@@ -195,7 +206,7 @@ impl Check for Identity {
         true
     }
     fn probes(&self, _prop: &str) -> std::vec::Vec<&'static str> {
-        vec!["probe.rejected", "probe.required_topic_without_issuer", "probe.verified", "probe.verified_with_some_issuer_lacking_claim", "probe.verify_exactly_at_valid_until", "probe.verify_one_before_valid_until", "probe.verify_with_unexpired_claim_revoked_long_ago", "probe.claim_signed_ed25519", "probe.claim_signed_secp256r1", "probe.claim_signed_secp256k1", "probe.verified_secp256r1", "probe.verified_secp256k1"]
+        vec!["probe.rejected", "probe.required_topic_without_issuer", "probe.verified", "probe.verified_with_some_issuer_lacking_claim", "probe.verify_exactly_at_valid_until", "probe.verify_one_before_valid_until", "probe.verify_with_unexpired_claim_revoked_long_ago", "probe.claim_signed_ed25519", "probe.claim_signed_secp256r1", "probe.claim_signed_secp256k1", "probe.verified_secp256r1", "probe.verified_secp256k1", "probe.verify_with_claim_whose_issuer_answers_false"]
     }
     fn generate(&self, rng: &mut Rng, tier: Tier) -> (Cfg, std::vec::Vec<Step>) {
         let cfg = Cfg { investors: 2, issuers: 2 + rng.below(2) as usize, keys: *rng.pick(&[[0, 1], [0, 2], [0, 3], [2, 3], [3, 2], [2, 1], [3, 1]]) };
@@ -275,7 +286,8 @@ impl Check for Identity {
                     if ttl < 1_000_000 { deadlines.push(elapsed + ttl); } Step::Issue { inv, i, t, key: rng.below(2) as usize, ttl, data: rng.below(3) as u8, tamper: if rng.chance(20) { *rng.pick(&[Tamper::Sig, Tamper::Data, Tamper::OtherTopic, Tamper::OtherIdentity, Tamper::StaleNonce]) } else { Tamper::None } } }
                 71..=73 => Step::RemoveClaim { inv, i, t },
                 74..=78 => Step::Revoke { i, inv, t, data: rng.below(3) as u8, on: rng.chance(70) },
-                79..=81 => Step::Bump { i, inv, t },
+                79..=80 => Step::Bump { i, inv, t },
+                81 => Step::IssuerAnswersFalse { i, on: rng.chance(65) },
                 82..=88 => {
                     // targeted: land on valid_until-1 / valid_until / valid_until+1 of some issued claim
                     let fut: std::vec::Vec<u64> = deadlines.iter().cloned().filter(|d| *d > elapsed + 1).collect();
@@ -375,6 +387,10 @@ impl Check for Identity {
                         }
                     }
                 }
+                Step::IssuerAnswersFalse { i, on } => {
+                    IssuerClient::new(e, &issuers[*i]).answer_false(on);
+                    if *on { m.answers_false.insert(*i); st.hit("fault.issuer_answers_false"); } else { m.answers_false.remove(i); }
+                }
                 Step::Bump { i, inv, t } => { IssuerClient::new(e, &issuers[*i]).bump(&idents[*inv], t); *m.nonce.entry((*i, *inv, *t)).or_insert(0) += 1; st.hit("fault.nonce_bumped"); }
                 Step::AdvanceTime { secs } => { m.now += secs; e.ledger().set_timestamp(m.now); let l = e.ledger().sequence(); e.ledger().set_sequence_number(l + (*secs / 5).min(6_000_000) as u32); st.seconds += secs; st.ledgers += secs / 5; st.hit("clock.advance"); }
                 Step::RemoveClaim { inv, i, t } => {
@@ -409,7 +425,7 @@ impl Check for Identity {
                     st.hit(["probe.claim_signed_ed25519", "probe.claim_signed_ed25519", "probe.claim_signed_secp256r1", "probe.claim_signed_secp256k1"][cfg.keys[*key]]);
                     if *tamper != Tamper::None { st.hit("fault.tampered_claim"); }
                     let g = IdentClient::new(e, &idents[*inv]).try_add_claim(t, &scheme_of(*key), &issuers[*i], &sd, &cd, &SString::from_str(e, "u")).is_ok();
-                    let x = *tamper == Tamper::None && m.keys.contains(&(*i, *key, *t)) && m.now < until && !m.revoked.contains(&(*i, *inv, *t, *data, until));
+                    let x = *tamper == Tamper::None && !m.answers_false.contains(i) && m.keys.contains(&(*i, *key, *t)) && m.now < until && !m.revoked.contains(&(*i, *inv, *t, *data, until));
                     if x { m.held.insert((*inv, *i, *t), Held { key: *key, nonce: cur, valid_until: until, data: *data }); }
                     outcome = Some(("add_claim", g, x));
                 }
@@ -437,6 +453,9 @@ impl Check for Identity {
                     // a still unexpired, revoked claim of this investor whose revocation is older than 31 days of ledgers
                     if m.held.iter().any(|(k, h)| k.0 == *inv && m.now < h.valid_until && m.revoked.contains(&(k.1, k.0, k.2, h.data, h.valid_until)) && m.revoked_at.get(&(k.1, k.0, k.2, h.data, h.valid_until)).map(|at| m.now - at > 2_700_000).unwrap_or(false)) {
                         st.hit("probe.verify_with_unexpired_claim_revoked_long_ago");
+                    }
+                    if m.held.iter().any(|(k, h)| k.0 == *inv && m.answers_false.contains(&k.1) && { let mut m2 = m.clone(); m2.answers_false.clear(); m2.claim_ok(k.1, k.0, k.2, h) }) {
+                        st.hit("probe.verify_with_claim_whose_issuer_answers_false");
                     }
                     if g != x {
                         let orphan: std::vec::Vec<u32> = m.topics.iter().filter(|t| !m.trusted.values().any(|ts| ts.contains(t))).cloned().collect();
@@ -477,6 +496,24 @@ impl Check for Identity {
                     if seen != want {
                         return Err(violation("claims.getters_eq_model", "get_claim_ids_by_topic", i_step, format!("investor {ix} topic {t}: lists issuers {seen:?}, model {want:?} after {s:?}")));
                     }
+                }
+            }
+            // "an issuer that is currently trusted for that topic": the registry's topic → issuers map equals the model
+            {
+                let real = rc.get_claim_topics_and_issuers();
+                let mut got: BTreeMap<u32, BTreeSet<usize>> = BTreeMap::new();
+                for (t, list) in real.iter() {
+                    let set = got.entry(t).or_default();
+                    for a in list.iter() {
+                        match issuers.iter().position(|x| *x == a) {
+                            Some(ix) => { set.insert(ix); }
+                            None => self.clause(st, &mut parked, violation("trusted.registry_eq_model", "get_claim_topics_and_issuers", i_step, format!("topic {t} lists an unknown address after {s:?}")))?,
+                        }
+                    }
+                }
+                let want: BTreeMap<u32, BTreeSet<usize>> = m.topics.iter().map(|t| (*t, m.trusted.iter().filter(|(_, ts)| ts.contains(t)).map(|(i, _)| *i).collect())).collect();
+                if got != want {
+                    self.clause(st, &mut parked, violation("trusted.registry_eq_model", "get_claim_topics_and_issuers", i_step, format!("registry says {got:?}, model {want:?} after {s:?}")))?;
                 }
             }
             // "signed by a key currently allowed for the topic": the issuer's key / topic relation equals the model
